@@ -4,7 +4,10 @@ import itertools
 from bounded.util import Collector, classify_exception
 
 VALID = ["0", "0.0", "0.3", "1", "1.0", "0.5+0.25", "1/4"]
-INVALID = ["-0.1", "1.1", "2", "-1", "0.6+0.6", "3/2", "1.00001"]
+INVALID = ["-0.1", "1.1", "2", "-1", "0.6+0.6", "3/2", "1.00001",
+           # values that are not numbers in [0,1] at all: not-a-number and the infinities (every comparison with NaN is false,
+           # so a range check written as "reject if below or above" lets it through)
+           "nan", "inf", "-inf", "inf-inf", "0*inf"]
 
 
 def evaluate(src, logspace):
